@@ -86,6 +86,13 @@ def worker(args):
             send_body = body
             declared = len(body)
             expect = "ok"
+            if kind == "ok" and parts and rnd.random() < 0.2 and app != b"/rawup":
+                # RFC 2046: the CRLF after the close delimiter belongs to the (optional) epilogue, a body may end with "--boundary--"
+                send_body = body = body[:-2]
+                declared = len(body)
+                cnt_no_crlf = True
+            else:
+                cnt_no_crlf = False
             if kind == "app-abort" and app in (b"/upload", b"/rawup") and body:
                 # the application's content filter refuses the upload by throwing abort_upload(code) from one of its callbacks
                 code = rnd.choice([403, 404, 409, 500, 503])
@@ -114,7 +121,8 @@ def worker(args):
                 declared = len(body)
                 expect = "413"
             elif kind == "longer-than-declared" and len(body) > 2:
-                declared = len(body) - rnd.choice([1, 2, len(body) // 2])
+                # (cutting exactly the final CRLF would leave a well-formed body that ends at the close delimiter: not used here)
+                declared = len(body) - rnd.choice([1, 3, len(body) // 2])
                 expect = "400" if app != b"/rawup" else "ok-raw-short"
             elif kind == "shorter-than-declared":
                 declared = len(body) + rnd.choice([1, 10, 1000])
@@ -187,6 +195,8 @@ def worker(args):
                         break
                     cnt("uploads_compared")
                     cnt("parts_compared", len(parts))
+                    if cnt_no_crlf:
+                        cnt("uploads_ending_at_the_close_delimiter")
                 xf = dict((a.lower(), b) for a, b in d["headers"]).get(b"x-filter", b"").decode()
                 if app == b"/rawup" and send_body:
                     kv = dict(x.split("=") for x in xf.split())
